@@ -30,13 +30,14 @@ type Content struct {
 
 // Header is the universe of a TLC configuration.
 type Header struct {
-	Ds       []string  `json:"ds"`
-	Ent      []string  `json:"ent"`
-	Pred     []string  `json:"pred"`
-	Contents []Content `json:"contents"`
-	Limits   []int     `json:"limits"`
-	Kinds    []string  `json:"kinds"`
-	Acts     []string  `json:"acts"`
+	Ds         []string  `json:"ds"`
+	Ent        []string  `json:"ent"`
+	Pred       []string  `json:"pred"`
+	Contents   []Content `json:"contents"`
+	Limits     []int     `json:"limits"`
+	Kinds      []string  `json:"kinds"`
+	Acts       []string  `json:"acts"`
+	Precreated bool      `json:"precreated"`
 }
 
 func (h *Header) HasKind(k string) bool {
